@@ -272,6 +272,25 @@ func wildPointer(b []byte) uint32 {
 	}
 }
 
+// unalignedLink: the offset of an existing record moved off its alignment:
+// by 4 or 12 (4-aligned, not 8-aligned), by an odd amount, or by 8/16/24
+// (8-aligned, inside the record).
+func unalignedLink(recs []int) uint32 {
+	r := recs[rnd.Intn(len(recs))]
+	d := Pick(rnd, []int{4, 12, 20, 28, 1, 3, 5, 7, 9, 31, 2, 6, 8, 16, 24, -4, -1, -8})
+	switch {
+	case d%8 == 0:
+		out.Note("mut-link-8-aligned-inside-record")
+	case d%4 == 0:
+		out.Note("mut-link-4-aligned")
+	case d%2 != 0:
+		out.Note("mut-link-odd")
+	default:
+		out.Note("mut-link-2-aligned")
+	}
+	return uint32(r + d)
+}
+
 func mutate(b []byte) ([]byte, string) {
 	b = append([]byte(nil), b...)
 	hl := int(le32(b, 28))
@@ -303,6 +322,9 @@ func mutate(b []byte) ([]byte, string) {
 		if len(recs) > 0 && rnd.Chance(30) {
 			v = uint32(recs[rnd.Intn(len(recs))]) // a record of (maybe) another bucket: shared record
 		}
+		if len(recs) > 0 && rnd.Chance(25) {
+			v = unalignedLink(recs)
+		}
 		put32(b, hl+4+4*i, v)
 		return b, "head"
 	case 4, 5: // record name length
@@ -320,7 +342,9 @@ func mutate(b []byte) ([]byte, string) {
 		}
 		r := recs[rnd.Intn(len(recs))]
 		var v uint32
-		switch rnd.Intn(5) {
+		switch rnd.Intn(6) {
+		case 5:
+			v = unalignedLink(recs)
 		case 0:
 			v = uint32(r) // self cycle
 			out.Note("mut-self-cycle")
@@ -446,9 +470,10 @@ func regression() []byte {
 		putRecord(b, off, name, 0, 9)
 		put32(b, 32+4+4*rnd.Intn(512), uint32(off))
 		return b
-	case 6: // unaligned record offsets
+	case 6: // record offsets of every alignment (only multiples of 8 are read)
 		b := blank(16384, 32)
 		off := 2112 + rnd.Intn(500)
+		out.Note("hand-offset-mod8-" + strconv.Itoa(off%8))
 		putRecord(b, off, "odd", 0, 3)
 		put32(b, 32+4+4*rnd.Intn(512), uint32(off))
 		return b
